@@ -7,6 +7,7 @@
    reported value (Automation.value: clipped / wrapped).  The number of ticks of a move is
    [duration_ticks tpb d] = ceil(round(d / tick_duration, 8)), and a move of 0 ticks takes 1 tick. *)
 From Isobar Require Import Base.Prelude Auto.Automation Auto.Lfo Auto.AutomationProofs Auto.LfoProofs.
+From Isobar Require Import Auto.Retime Auto.RetimeProofs Auto.Targets Auto.TargetsProofs.
 From Coq Require Import QArith Qround Qabs Qreduction Lqa.
 Local Open Scope Q_scope.
 
@@ -470,4 +471,206 @@ Example C18_reconfig_auto_nonvacuous :
        Qred (a_cv (run_ticks 2 a3)))
   | None => (0, 0, 0, 0, 0)
   end = (5, 1, 5 # 2, 0, 8).
+Proof. vm_compute. reflexivity. Qed.
+
+(** * The timeline's resolution is changed in the middle of a run (FIX-C18, second round): timeline.ticks_per_beat = n,
+   or a clock source with another resolution, after the LFO / automation has been ticking.  A history is a list of
+   operations in which [RLTpb n] / [RATpb n] replaces the resolution carried in the state (Auto/Retime.v); the LFO /
+   automation state is carried over. *)
+Section SineRetime.
+  Variable sin2pi : Q -> Q.
+  Hypothesis sin_range : forall x, -1 <= sin2pi x <= 1.
+  Hypothesis sin_period : forall x, sin2pi (x + 1) == sin2pi x.
+  Hypothesis sin_proper : forall x y, x == y -> sin2pi x == sin2pi y.
+
+  (* range: after ANY history of ticks, re-configurations, resets and resolution changes that ends in a tick the
+     value lies within the bounds in force; trace form: every tick of the history *)
+  Theorem C18_retime_lfo_range : forall st ops,
+    (let l' := snd (rl_run sin2pi st (ops ++ [RL LTick])) in
+     l_min l' <= l_max l' -> l_min l' <= lfo_value l' <= l_max l')
+    /\ (forall b v lo hi, In (b, v, (lo, hi)) (rl_trace sin2pi st ops) -> b = true -> lo <= hi -> lo <= v <= hi).
+  Proof.
+    intros. split; [apply rl_range_after_history; assumption|].
+    intros b v lo hi HI. exact (proj1 (Forall_forall _ _) (rl_trace_range sin2pi sin_range st ops) _ HI).
+  Qed.
+
+  (* the phase follows the beat position: the LFO's clock after a history without reset is its clock before plus
+     the beats that elapsed — every tick counted with the tick length in force AT THAT TICK —, the resolution in
+     force is the one set last, and the value after a tick is the waveform of the current frequency and bounds at
+     that beat position: sin(2 pi f t) with t in beats, whatever resolutions the run went through *)
+  Theorem C18_retime_lfo_phase : forall st ops,
+    forallb rl_noreset ops = true ->
+    let st' := rl_run sin2pi st (ops ++ [RL LTick]) in
+    fst st' = rl_tpb (fst st) ops
+    /\ l_time (snd st') == l_time (snd st) + rl_beats (fst st) (ops ++ [RL LTick])
+    /\ l_value (snd st') == lfo_wave sin2pi (l_freq (snd st')) (l_min (snd st')) (l_max (snd st'))
+                                     (l_time (snd st) + rl_beats (fst st) (ops ++ [RL LTick])).
+  Proof.
+    intros st ops H. cbv zeta. split; [|split].
+    - rewrite rl_run_tpb, rl_tpb_app. reflexivity.
+    - apply rl_run_time. rewrite forallb_app, H. reflexivity.
+    - apply rl_value_at_beats; assumption.
+  Qed.
+
+  (* period 1 / frequency beats ACROSS resolution changes: two ticks that are k whole periods apart in beats, with
+     only ticks and resolution changes in between, show the same value *)
+  Theorem C18_retime_lfo_periodic_beats : forall st ops1 ops2 (k : nat),
+    forallb rl_plain ops2 = true ->
+    let st1 := rl_run sin2pi st (ops1 ++ [RL LTick]) in
+    let st2 := rl_run sin2pi st1 (ops2 ++ [RL LTick]) in
+    rl_beats (fst st1) (ops2 ++ [RL LTick]) * l_freq (snd st1) == qnat k ->
+    l_value (snd st2) == l_value (snd st1).
+  Proof. intros. apply (rl_periodic_beats sin2pi sin_period sin_proper st ops1 ops2 k); assumption. Qed.
+
+  (* the segment after the change, from ANY state the history before it may have left the LFO in: the run is the
+     old state ticked at the NEW resolution; every value is within the bounds, is the waveform at (clock at the
+     change) + n / new resolution, and repeats every p ticks when p * frequency = the new resolution *)
+  Theorem C18_retime_lfo_segment : forall st ops tpb2 (n p : nat),
+    let l := snd (rl_run sin2pi st ops) in
+    rl_run sin2pi st (ops ++ RLTpb tpb2 :: repeat (RL LTick) n) = (tpb2, lfo_ticks sin2pi tpb2 n l)
+    /\ (l_min l <= l_max l -> l_min l <= lfo_value (lfo_ticks sin2pi tpb2 (S n) l) <= l_max l)
+    /\ l_value (lfo_ticks sin2pi tpb2 (S n) l)
+         == lfo_wave sin2pi (l_freq l) (l_min l) (l_max l) (l_time l + qnat (S n) * (1 / inject_Z tpb2))
+    /\ ((0 < tpb2)%Z -> qnat p * l_freq l == inject_Z tpb2 ->
+         lfo_value (lfo_ticks sin2pi tpb2 (S n + p) l) == lfo_value (lfo_ticks sin2pi tpb2 (S n) l)).
+  Proof.
+    intros. cbv zeta. split; [apply rl_segment_after|]. split; [|split].
+    - intros. apply lfo_range_from; assumption.
+    - apply lfo_value_after; assumption.
+    - intros. apply lfo_periodic_from; assumption.
+  Qed.
+End SineRetime.
+Print Assumptions C18_retime_lfo_range.
+Print Assumptions C18_retime_lfo_phase.
+Print Assumptions C18_retime_lfo_periodic_beats.
+Print Assumptions C18_retime_lfo_segment.
+
+(* square wave 0..1, frequency 1: two ticks at 4 ticks per beat, then the resolution becomes 8: the value keeps
+   following the beat position (1/4, 1/2 | 5/8, 6/8, 7/8, 1, 9/8 beats), not the tick count *)
+Example C18_retime_lfo_nonvacuous :
+  let ops := [RL LTick; RL LTick; RLTpb 8; RL LTick; RL LTick; RL LTick; RL LTick; RL LTick] in
+  map (fun e => Qred (snd (fst e))) (rl_trace square (4%Z, new_lfo 1 0 1) ops) = [1; 1; 1; 0; 0; 0; 1; 1]
+  /\ Qeq_bool (rl_beats 4 ops) (9 # 8) = true
+  /\ forallb rl_noreset ops = true /\ forallb rl_plain ops = true
+  /\ Qeq_bool (rl_beats 4 (RL LTick :: RLTpb 8 :: repeat (RL LTick) 6) * 1) (qnat 1) = true.
+Proof. vm_compute. repeat split. Qed.
+
+(** Automations under resolution changes *)
+
+(* a move made at the resolution in force NOW — after any history of calls, ticks and resolution changes, indeed
+   from any state — lasts max(ceil(round8(duration * tpb)), 1) ticks of the CURRENT resolution [tpb]; while it is
+   under way further resolution changes are invisible (k ticks are k ticks): the automation after a stretch of
+   ticks and resolution changes is [run_ticks (number of ticks)] of the state after the call, so it is exactly on
+   target from that tick on, moves monotonically before, and stays put (C18_arrival_move_to) *)
+Theorem C18_retime_move_to : forall tpb a v d e a' idle,
+  move_to tpb a v d e = Some a' -> forallb ra_idle idle = true ->
+  let n := Z.to_nat (Z.max (duration_ticks tpb (match d with Some x => x | None => a_default a end)) 1) in
+  exists tpb' tr,
+    ra_run (tpb, a) (RA (OMoveTo v d e) :: idle) = Some ((tpb', run_ticks (ra_ticks idle) a'), tr)
+    /\ ((n <= ra_ticks idle)%nat -> a_cv (run_ticks (ra_ticks idle) a') == v /\ a_mods (run_ticks (ra_ticks idle) a') = [])
+    /\ (a_cv a <= v -> a_cv (run_ticks (ra_ticks idle) a') <= v)
+    /\ (v <= a_cv a -> v <= a_cv (run_ticks (ra_ticks idle) a')).
+Proof.
+  intros tpb a v d e a' idle H Hi. cbv zeta.
+  destruct (ra_run_idle (tpb, a') idle Hi) as [tpb' [tr [E _]]]. cbn [snd] in E.
+  exists tpb', ([] :: tr). split; [|split; [|split]].
+  - cbn [ra_run ra_step step fst snd]. rewrite H. cbn [option_map fst snd]. rewrite E. reflexivity.
+  - intros Hk. destruct (C18_arrival_move_to _ _ _ _ _ _ H) as [_ [A _]]. apply A, Hk.
+  - intros Hv. destruct (C18_arrival_move_to _ _ _ _ _ _ H) as [A0 [_ [U _]]].
+    destruct (ra_ticks idle) as [|k]; [change (run_ticks 0 a') with a'; rewrite A0; exact Hv|apply (U Hv k)].
+  - intros Hv. destruct (C18_arrival_move_to _ _ _ _ _ _ H) as [A0 [_ [_ D]]].
+    destruct (ra_ticks idle) as [|k]; [change (run_ticks 0 a') with a'; rewrite A0; exact Hv|apply (D Hv k)].
+Qed.
+Print Assumptions C18_retime_move_to.
+
+(* move_by after any history with resolution changes: the state reached is well formed, so the move adds exactly v to
+   where the automation is heading and the statement of C18_arrival_move_by holds with the resolution in force at
+   the call *)
+Theorem C18_retime_move_by : forall st0 ops tpb a tr v d e a',
+  reachable_rt (snd st0) -> ra_run st0 ops = Some ((tpb, a), tr) -> move_by tpb a v d e = Some a' ->
+  let n := Z.to_nat (Z.max (duration_ticks tpb (match d with Some x => x | None => a_default a end)) 1) in
+  reachable_rt a /\ reachable_rt a'
+  /\ a_cv a' = a_cv a
+  /\ (forall k, (Nat.max (ticks_left a) n <= k)%nat ->
+        a_cv (run_ticks k a') == settled_value a + v /\ a_mods (run_ticks k a') = [])
+  /\ (a_mods a = [] ->
+        (forall k, (n <= k)%nat -> a_cv (run_ticks k a') == a_cv a + v)
+        /\ (0 <= v -> forall k, a_cv (run_ticks k a') <= a_cv (run_ticks (S k) a') <= a_cv a + v)
+        /\ (v <= 0 -> forall k, a_cv a + v <= a_cv (run_ticks (S k) a') <= a_cv (run_ticks k a'))).
+Proof.
+  intros st0 ops tpb a tr v d e a' R H Hm. cbv zeta.
+  pose proof (ra_run_reachable _ _ _ _ R H) as Ra. cbn [snd] in Ra.
+  split; [exact Ra|]. split.
+  - apply (reach_rt_step tpb a (OMoveBy v d e) a' []); [exact Ra|]. cbn [step]. rewrite Hm. reflexivity.
+  - exact (arrival_move_by_wf tpb a v d e a' (reachable_rt_wf a Ra) Hm).
+Qed.
+Print Assumptions C18_retime_move_by.
+
+(* from 0 to 6 in 1/4 beat: 3 ticks at 12 ticks per beat; after one tick the resolution becomes 24 (the move under way
+   keeps its 3 ticks), on arrival the same call lasts 6 ticks *)
+Example C18_retime_auto_nonvacuous :
+  let a0 := new_automation None Clip (Some 0) 0 in
+  option_map (fun r => (fst (fst r), Qred (a_cv (snd (fst r)))))
+    (ra_run (12%Z, a0) [RA (OMoveTo 6 (Some (1 # 4)) 0); RA OTick; RATpb 24; RA OTick; RA OTick; RA OTick;
+                         RA (OMoveTo 0 (Some (1 # 4)) 0); RA OTick; RA OTick; RA OTick]) = Some (24%Z, 3)
+  /\ duration_ticks 12 (1 # 4) = 3%Z /\ duration_ticks 24 (1 # 4) = 6%Z
+  /\ forallb ra_idle [RA OTick; RATpb 24; RA OTick; RA OTick; RA OTick] = true.
+Proof. vm_compute. repeat split. Qed.
+
+(** * Several bound objects, equal but not identical (FIX-C18, second round) *)
+
+(* over whole histories (API calls, ticks, resolution changes): the bindings of the automation are those it had plus
+   every binding made since, in order — none is skipped, none removed —, and the next tick that changes the value
+   (and every jump_to) calls each of them, once per binding, in bind order, with the value reported afterwards *)
+Theorem C18_bindings_history : forall st ops st1 tr,
+  ra_run st ops = Some (st1, tr) ->
+  let bs := a_binds (snd st) ++ ra_binds ops in
+  a_binds (snd st1) = bs
+  /\ (let '(a', calls) := tick (snd st1) in
+        (a_cv a' == a_cv (snd st1) /\ calls = [])
+        \/ (~ a_cv a' == a_cv (snd st1) /\ calls = map (fun b => (b, value a')) bs))
+  /\ (forall v, let '(a', calls) := jump_to (snd st1) v in calls = map (fun b => (b, value a')) bs).
+Proof. exact history_tick_calls. Qed.
+Print Assumptions C18_bindings_history.
+
+(* targets (Auto/Targets.v) carry an identity and a key standing for what == compares.  Whatever the keys — in
+   particular when several of the targets, or a target and an object bound earlier, compare EQUAL without being
+   identical — binding them all is accepted, hands each the current value, and after any further history every one of
+   them is called by the next tick that changes the value with the value reported after that tick, exactly as often
+   as it was bound (at least once); the attr / method mode makes no difference *)
+Theorem C18_bindings_equal_targets : forall st ts ops st1 tr,
+  (exists a0 tr0, ra_run st (bind_ops ts) = Some ((fst st, a0), tr0)
+                  /\ tr0 = map (fun t => [(tg_id t, value (snd st))]) ts
+                  /\ a_binds a0 = a_binds (snd st) ++ map tg_id ts)
+  /\ (ra_run st (bind_ops ts ++ ops) = Some (st1, tr) ->
+      let '(a', calls) := tick (snd st1) in
+      ~ a_cv a' == a_cv (snd st1) ->
+      forall t, In t ts ->
+        In (tg_id t, value a') calls
+        /\ calls_to (tg_id t) calls = bound_times (tg_id t) (a_binds (snd st) ++ map tg_id ts ++ ra_binds ops)
+        /\ (1 <= calls_to (tg_id t) calls)%nat).
+Proof.
+  intros st ts ops st1 tr. split.
+  - destruct (bind_ops_run st ts) as [a0 [tr0 [E [_ [_ [B [_ [_ T]]]]]]]]. exists a0, tr0. auto.
+  - intros H. destruct (history_tick_calls _ _ _ _ H) as [_ [Hc _]]. cbv zeta in Hc.
+    destruct (tick (snd st1)) as [a' calls]. intros Hn t Ht.
+    destruct Hc as [[Hc _]|[_ Hc]]; [contradiction|].
+    rewrite ra_binds_app, ra_binds_bind_ops in Hc.
+    assert (Hin : In (tg_id t) (a_binds (snd st) ++ map tg_id ts ++ ra_binds ops)).
+    { apply in_or_app. right. apply in_or_app. left. apply in_map. exact Ht. }
+    split; [|split].
+    + rewrite Hc. apply (in_map (fun b => (b, value a'))) in Hin. exact Hin.
+    + rewrite Hc. apply calls_to_notify.
+    + rewrite Hc, calls_to_notify. apply bound_times_in. exact Hin.
+Qed.
+Print Assumptions C18_bindings_equal_targets.
+
+(* three voices with the same key (equal, not identical) and a fourth of another kind, bound to an automation that
+   already has a binding; a move follows: the tick calls all five *)
+Example C18_bindings_equal_targets_nonvacuous :
+  let ts := [mkTarget 11 0 false; mkTarget 12 0 false; mkTarget 13 0 false; mkTarget 14 7 true] in
+  let a := fst (bind_to (new_automation (Some (0, 5)) Clip (Some 0) 0) 10%Z) in
+  option_map (fun r => snd (tick (snd (fst r))))
+    (ra_run (24%Z, a) (bind_ops ts ++ [RA (OMoveTo 8 (Some 0) (1 # 2))]))
+  = Some [(10%Z, 5); (11%Z, 5); (12%Z, 5); (13%Z, 5); (14%Z, 5)].
 Proof. vm_compute. reflexivity. Qed.
